@@ -460,6 +460,15 @@ func TestReplay(t *testing.T) {
 			if os.Getenv("VERIF_REPLAY_VERBOSE") != "" {
 				eb, _ := json.MarshalIndent(r.Events, "", " ")
 				fmt.Printf("%s\n", eb)
+				for _, sn := range r.Snapshots {
+					fmt.Printf("SNAPSHOT seq=%d site=%s g=%s\n", sn.Seq, sn.Site, sn.G)
+					for _, o := range sn.Others {
+						if !strings.Contains(o, " after@") {
+							i := strings.LastIndex(o, "@")
+							fmt.Printf("   parked %s  func=%s kind=%s root=%s\n", o, SiteFunc[strings.TrimPrefix(o[i+1:], "go:")], SiteKind[strings.TrimPrefix(o[i+1:], "go:")], runRoot(o[:i]))
+						}
+					}
+				}
 			}
 			os.Exit(1)
 		}
